@@ -25,7 +25,8 @@ RULE = ('case = a fresh directory holding 1-4 include targets and an including c
         " The cart lives in a scratch directory, directly in ~/.lexaloffle/pico-8/carts (HOME redirected) or in a game folder below it (include names stay relative to the cart's own directory; same-named decoy files sit in the carts directory)."
         ' An eighth of the cart targets use 14-18 editor tabs, with selectors at the last tabs and one past them.'
         ' Cart targets without code may lack the __lua__ section altogether (two fixed specs and random ones); string statements of targets may hold P8SCII bytes that are well-formed UTF-8.'
-        ' .lua targets may contain a bare CR inside a long string / comment; near-separator lines include indented -->8.')
+        ' .lua targets may contain a bare CR inside a long string / comment; near-separator lines include indented -->8.'
+        ' An eighth of the carts include themselves (main.p8, main.p8:0, main.p8:1, ./main.p8: the code as stored, not expanded again); a quarter hold a long comment / long string with a line that starts like an include line but names no .lua/.p8/.p8.png file (passed through unchanged).')
 ASSUMPTIONS = [
     'tab numbering is the one picotool documents (lines_for_tab, game_test.py): tab 0 is the code before the first '
     'line starting with `-->8`, tab n the lines after the n-th and before the (n+1)-th such line; the separator '
@@ -59,6 +60,9 @@ DIRS = ((5, ''), (2, 'lib/'), (2, 'sub/dir/'), (1, 'a-b.c/'))
 WORDS = (b'x', b'go', b'hi there', b'tab 1', b'p8')
 NEAR_SEPARATORS = (b'x=1 -->8', b'--->8', b'-- >8', b'--8', b'-- -->8', b'  -->8', b'\t-->8', b' -->8  ')
 SEPARATOR = b'-->8'
+# lines that start like an include line but are not one (no .lua/.p8/.p8.png name): prose in a long comment or string
+LOOKALIKES = (b'#include notes.txt', b'#include <file> is not supported here', b'  #include lines pull in the library',
+              b'#include', b'#include  ', b'\t#include data.bin', b'#include lib/', b'#includes x')
 PLACES = ('plain', 'plain', 'carts_root', 'carts_sub')
 
 
@@ -201,8 +205,22 @@ def gen_spec(seed, avoid=(), missing=False):
         line = pre + b'#include' + mid + name + post
         inc_lines.append(line)
         items.insert(pos_raw % (len(items) + 1), line)
+    extra = bytes(seed)[-13] if len(seed) >= 13 else 0
+    self_include = False
+    if extra % 8 == 2 and not missing:
+        # the cart includes itself (whole, or one of its own tabs): the included text is the cart's code as stored,
+        # include lines and all -- included carts are not expanded again
+        self_include = True
+        if extra & 64:
+            items.insert((extra // 8) % (len(items) + 1), SEPARATOR)
+        items.insert(bytes(seed)[-14] % (len(items) + 1),
+                     (b'#include main.p8', b'#include main.p8:0', b'#include main.p8:1', b' #include ./main.p8')[(extra // 8) % 4])
+    if extra % 4 == 1:
+        at = bytes(seed)[-14] % (len(items) + 1)
+        opener, closer = ((b'--[[ usage:', b']]'), (b'help=[[', b']]'), (b'--[==[', b']==]'))[(extra // 4) % 3]
+        items[at:at] = [opener, LOOKALIKES[(extra // 16) % len(LOOKALIKES)], closer]
     spec = {'main_code': b''.join(ln + b'\n' for ln in items), 'main_full': main_full, 'targets': targets,
-            'dirs': [], 'expect': 'splice'}
+            'dirs': [], 'expect': 'splice', 'self_include': self_include}
     if missing:
         victim_i, variant, ext, t_raw, cart_ext, sel, stem2 = miss
         victim = inc_lines[victim_i]
@@ -301,6 +319,8 @@ def chunk_segments(t, sel):
 def reference(spec):
     """-> (segments, info) ; info: list of (line_index, path, sel, target or None) per include line."""
     by_path = {t['path']: t for t in spec['targets']}
+    if spec.get('self_include'):
+        by_path['main.p8'] = {'path': 'main.p8', 'kind': 'p8', 'code': bytes(spec['main_code']), 'self': True}
     segs, incs = [], []
     for i, ln in enumerate(lines_of(ensure_nl(spec['main_code']))):
         inc = parse_include(ln)
@@ -529,6 +549,8 @@ def labels_for(spec):
         if t is None:
             continue
         labs.append('kind_' + t['kind'])
+        if t.get('self'):
+            labs.append('cart_includes_itself')
         content = t['data'] if t['kind'] == 'lua' else t['code']
         tl = target_lines(t)
         nsep = sum(1 for ln in tl if ln.startswith(SEPARATOR))
@@ -566,6 +588,8 @@ def labels_for(spec):
         if any(c in os.path.basename(t['path'])[:-len(EXT[t['kind']])] for c in '-.0123456789'):
             labs.append('name_with_dash_dot_digit')
     mlines = lines_of(ensure_nl(spec['main_code']))
+    if any(ln.strip(b'\n') in LOOKALIKES for ln in mlines):
+        labs.append('include_lookalike_line')
     for i in idxs:
         if mlines[i].rstrip(b'\n') != mlines[i].strip():
             labs.append('include_line_padded')
@@ -609,6 +633,8 @@ FIXED_SPECS = [
                  {'path': 'lib.lua', 'kind': 'lua', 'data': b'l=1\n'}]},
     {'main_code': b'#include sub/dir/assets.p8\n',
      'targets': [{'path': 'sub/dir/assets.p8', 'kind': 'p8', 'code': b'', 'label': 2, 'full': False}]},
+    {'main_code': b'a=1\n-->8\nb=2\n#include main.p8:1\n--[[\n#include <file> is not supported here\n]]\n#include main.p8\n',
+     'targets': [], 'self_include': True},
 ]
 
 
@@ -658,7 +684,8 @@ REQUIRED = ('includes_0', 'includes_1', 'includes_2', 'includes_3', 'includes_4'
             'include_last_line', 'include_middle', 'target_no_final_newline',
             'line_follows_target_without_final_newline', 'nested_include_verbatim', 'subdir', 'same_target_twice',
             'include_line_padded', 'name_with_dash_dot_digit', 'crlf_target', 'missing_target', 'place_plain',
-            'place_carts_root', 'place_carts_sub', 'tab_14_or_later_of_many', 'p8_target_without_lua_section')
+            'place_carts_root', 'place_carts_sub', 'tab_14_or_later_of_many', 'p8_target_without_lua_section',
+            'cart_includes_itself', 'include_lookalike_line')
 
 
 def vacuity(total, tier):
